@@ -94,6 +94,15 @@ for d in sorted(glob.glob(os.path.join(HERE, 'seeded', '*'))):
             'checks': caught, 'caught_by': [{'property': p, 'obligation': o} for p, o in viol], 'counterexample_replayed_on_real_headers': reproduced}
     json.dump(meta, open(os.path.join(d, 'meta.json'), 'w'), indent=1)
     det = ', '.join(sorted(set('%s: `%s`' % (p, o) for p, o in viol))) or ('**missed**' if caught else 'not run yet')
+    if not caught and os.path.exists(os.path.join(d, 'prescreen.log')):
+        # no recorded run on /repo yet: say what the pre-screen on a scratch worktree (tools/sweep_seed.sh) answered
+        pre = open(os.path.join(d, 'prescreen.log')).read()
+        pv = sorted(set(re.findall(r'VIOLATION property=(\w+) replay=\S*/([^/\s]+?)(?:_N\d[\w.]*)?(?: no-failing-input-found)?$', pre, re.M)))
+        ran = re.findall(r'\] (\w+) tier=quick: (\d+) obligations, (\d+) discharged, (\d+) refuted, (\d+) undecided', pre)
+        if ran:
+            det = 'recorded run on /repo not done; pre-screen on a scratch worktree: ' + (', '.join('%s: `%s`' % (p, o) for p, o in pv) or '**missed** (%s)' % ', '.join(r[0] for r in ran))
+            meta['prescreen_on_scratch_worktree'] = {'caught_by': [{'property': p, 'obligation': o} for p, o in pv], 'checks_run': [r[0] for r in ran]}
+            json.dump(meta, open(os.path.join(d, 'meta.json'), 'w'), indent=1)
     rows.append('| %s | %s | %s | %s | %s |' % (sid, prop, what, needs, det))
 print('| seed | property | change | needs | caught by (quick tier, run on /repo) |\n|---|---|---|---|---|')
 print('\n'.join(rows))
